@@ -828,7 +828,7 @@ Lemma failed_write_frame st now f o : faulty f o = true -> parts_sorted st ->
   parts_sorted (fst (failed_under spec_step (st, now) f o)) /\ snd (failed_under spec_step (st, now) f o) = now /\
   forall pk cc, ~ In (pk, cc) (write_keys o) -> raw_lookup (fst (failed_under spec_step (st, now) f o)) pk cc = raw_lookup st pk cc.
 Proof.
-  intros F S. destruct f as [| | |k]; cbn [faulty] in F; try discriminate; cbn [failed_under fst snd].
+  intros F S. destruct f as [| | |k|]; cbn [faulty] in F; try discriminate; cbn [failed_under fst snd].
   - auto.
   - apply spec_write_frame; assumption.
   - destruct o as [pk0 cc0 v|items|pk0 cc0|pk0 ccs|pk0 a f|pk0 cc0 v ttl|pk0 cc0 old new ttl|pk0 cc0 e|pk0 cc0|pk0 a f|pk0 cc0|d];
@@ -842,12 +842,13 @@ Lemma write_keys_op_keys o : is_write o = true -> write_keys o = op_keys o.
 Proof. destruct o; try discriminate; reflexivity. Qed.
 
 (* one step under a fault plan, failed writes marking their keys *)
-Theorem cache_fstep_transparent xm s fo : CI s -> op_domain (snd fo) ->
+Theorem cache_fstep_transparent xm s fo : CI s -> op_domain (snd fo) -> fst fo <> FRaw ->
   let r := cache_fstep spec_step true true xm true s fo in
   CI (fst r) /\ c_under (fst r) = fst (under_fstep spec_step (c_under s) fo) /\
   (dont_care (c_under s) (snd fo) = true \/ snd r = snd (under_fstep spec_step (c_under s) fo)).
 Proof.
-  intros HCI Hdom. destruct fo as [f o]. unfold cache_fstep, under_fstep. cbn [fst snd].
+  intros HCI Hdom Hraw. destruct fo as [f o]. unfold cache_fstep, under_fstep. cbn [fst snd] in *.
+  assert (Eb : bypasses f o = false) by (destruct f; try reflexivity; contradiction). rewrite Eb.
   destruct (faulty f o) eqn:F.
   - cbn [fst snd c_under]. split; [|split; [reflexivity|right; reflexivity]].
     destruct s as [[st now] c cnow].
@@ -881,13 +882,14 @@ Fixpoint transparent_xrun (memo bm kg xm em : bool) (s : xst (U:=sstate)) (xs : 
               /\ transparent_xrun memo bm kg xm em (fst (xstep spec_step memo bm kg xm em s x)) r
   end.
 
-Theorem cache_transparent_x_proved xm xs : forall s, CI (one_cache s) -> Forall (fun x => op_domain (snd x)) xs ->
+Theorem cache_transparent_x_proved xm xs : forall s, CI (one_cache s) ->
+  Forall (fun x => op_domain (snd x) /\ snd (fst x) <> FRaw) xs ->
   transparent_xrun true true true xm true s xs.
 Proof.
   induction xs as [|x xs IH]; intros s HCI HF; cbn [transparent_xrun]; auto.
   inversion HF as [|? ? Ho Hr]; subst.
   destruct (xstep_one_cache true true xm true s x) as [E1 E2].
-  destruct (cache_fstep_transparent xm (one_cache s) (xfop x) HCI Ho) as [H1 [H2 H3]].
+  destruct (cache_fstep_transparent xm (one_cache s) (xfop x) HCI (proj1 Ho) (proj2 Ho)) as [H1 [H2 H3]].
   split.
   - rewrite E2. exact H3.
   - apply IH; [|exact Hr]. rewrite E1. exact H1.
@@ -897,7 +899,8 @@ Qed.
 Lemma flag_one_per_app : cache_provider_one_per_app = true. Proof. reflexivity. Qed.
 Lemma flag_write_error_marks : cache_write_error_marks = true. Proof. reflexivity. Qed.
 
-Theorem cache_transparent_x_src_proved xs : forall s, CI (one_cache s) -> Forall (fun x => op_domain (snd x)) xs ->
+Theorem cache_transparent_x_src_proved xs : forall s, CI (one_cache s) ->
+  Forall (fun x => op_domain (snd x) /\ snd (fst x) <> FRaw) xs ->
   transparent_xrun cache_provider_one_per_app cache_big_values_marked cache_key_guard cache_expired_leaves_marker
                    cache_write_error_marks s xs.
 Proof. rewrite flag_one_per_app, flag_big_marked, flag_key_guard, flag_write_error_marks. exact (cache_transparent_x_proved _ xs). Qed.
